@@ -32,6 +32,8 @@ def write_replay(prop: str, seed: int, idx: int, body: dict) -> str:
 
 
 def main() -> int:
+    import warnings
+    warnings.filterwarnings("ignore")
     ap = argparse.ArgumentParser()
     ap.add_argument("prop")
     ap.add_argument("--tier", default=os.environ.get("VERIF_TIER", "quick"), choices=["quick", "thorough"])
